@@ -91,6 +91,16 @@ func All() []*core.Rule {
 					r.Props = append(r.Props, p)
 				}
 			}
+			// the invariants of the generated systems are argued for specifications whose labelled blocks are atomic steps
+			// and whose links are reliable FIFO exactly-once: the implementation inherits them only while the runtime's
+			// critical sections are atomic (the rules of C01) and its mailboxes / channels behave as modelled (C06)
+			if r.HasProp("C01") || r.HasProp("C06") {
+				for _, p := range []string{"C08", "C09", "C14", "C15", "C16"} {
+					if !r.HasProp(p) {
+						r.Props = append(r.Props, p)
+					}
+				}
+			}
 		}
 	}
 	return registry
